@@ -55,6 +55,18 @@ func genXZWCase(r *sim.Rng, tier string, idx int, tail bool) *WCase {
 			pl = dictAwarePayload(r, cfg.DictCap, cfg.BufSize)
 		}
 	}
+	if want <= 1<<20 && cfg.Matcher == 0 && (cfg.BlockSize == 0 || cfg.BlockSize >= 1<<20) {
+		small := cfg.DictCap != 0 && cfg.DictCap <= 1<<14
+		switch {
+		case tier == "src":
+			// stream source of a fault engine that enumerates positions: small ones only, rarely
+			if cfg.DictCap != 0 && cfg.DictCap <= 8192 && r.Chance(1, 40) {
+				pl = mixedChunkPayload(r, cfg.DictCap)
+			}
+		case (small && r.Chance(1, 10)) || (!small && r.Chance(1, 60)):
+			pl = mixedChunkPayload(r, cfg.DictCap)
+		}
+	}
 	n := pl.Len()
 	marks := []int{65536}
 	if cfg.BlockSize > 0 {
